@@ -134,6 +134,31 @@ def run(h, case):
     return sig
 
 
+def repair(R, case, inputs):
+    """tie witnesses: move the threshold(s) onto the float64 global costs the real package computes for the fixed-size sequence"""
+    import numpy as np
+    if case['layer'] != 'L0':
+        return
+    curve = POOL[case['curve']]
+    pts = np.array([[float(a), float(Fr(inputs.get('y%d' % i, b)) if i in case['pos'] else b)] for i, (a, b) in enumerate(curve)], dtype=float)
+    n = len(pts)
+    rdp, M = R.rdp, R.metrics.Metrics
+    cost = getattr(M, case.get('metric', 'smape'))
+    dist = getattr(rdp.Distance, case.get('distance', 'shortest'))
+    order = getattr(rdp.Order, case.get('order', 'segment'))
+    vals = []
+    for k in range(2, n + 1):
+        S = rdp.rdp_fixed(pts, k, dist, order)[0]
+        vals.append(float(R.evaluation.compute_global_cost(pts, S, cost)))
+    tnames = [k for k in inputs if k.startswith('t')]
+    for v in vals:
+        if v > 0:
+            for tn in tnames:
+                alt = dict(inputs)
+                alt[tn] = str(Fr(v))
+                yield alt
+
+
 LEVEL_TEXT = ('Bounded symbolic model checking. L1: the real grdp/_grdp/mp_grdp/min_point_rdp and rdp_fixed run in one symbolic path over kernel stubs (distance, ordering score '
               'and the global cost G(S) of a breakpoint set are free solver variables), and z3 proves on every path that grdp returns S_k* with k* the first k whose G is on '
               'the accepting side of t (accept written independently: < t, >= t for R2), that mp_grdp returns S_max(k*, min(m,n)) for every m, and the multi-threshold rule. '
